@@ -45,7 +45,7 @@ func runC15(c *Ctx) {
 	defer checkVerifyAud(c, "C15.R7")
 	defer checkStoreLooksUp(c, "C15.R6", "GetPublicKey", 2, 3, 4)
 	defer checkStoreLooksUp(c, "C15.R6", "GetPublicKeys", 2, 3)
-	defer checkStoreKeyed(c, "C15.R6", storeRow{meth: "SetClientAssertionJWT", table: "BlacklistedJTIs", op: "create", key: 2}, storeRow{meth: "ClientAssertionJWTValid", table: "BlacklistedJTIs", op: "lookup", key: 2})
+	defer checkStoreKeyed(c, "C15.R6", storeRow{meth: "SetClientAssertionJWT", table: "BlacklistedJTIs", op: "create", key: 2, purge: true}, storeRow{meth: "ClientAssertionJWTValid", table: "BlacklistedJTIs", op: "lookup", key: 2})
 	defer checkConfigGetters(c, "C15.R5", "GetGrantTypeJWTBearerIDOptional", "GetGrantTypeJWTBearerIssuedDateOptional", "GetJWTMaxDuration", "GetTokenURLs")
 	c15R1(c)
 	c15R2(c)
